@@ -478,3 +478,123 @@ Proof.
     [apply forallb_flat_map, all_ops_disc|exact Hlen|exact HB|exact HU|].
   split; [exact B|]. split; [exact U|]. intros p id. apply A.
 Qed.
+
+(* ------------------------------------------------------------------ *)
+(* C06: a hostile file is local: its effect is that of a prefix of its records, the queue goes
+   on behind it as from the register that prefix left, what was imported before stays *)
+
+(* the dump part over the first k records: the same walk if the whole walk stops within them,
+   else the Singles of those records, a prefix of the whole *)
+Lemma dump_walk_take ids rest : forall k,
+  (dump_walk ids (take k rest)).1 `prefix_of` (dump_walk ids rest).1 /\
+  ((dump_walk ids (take k rest)).2 = SStop -> dump_walk ids (take k rest) = dump_walk ids rest).
+Proof.
+  induction rest as [|rc rest IH]; intros k.
+  - rewrite take_nil. split; [reflexivity|discriminate].
+  - destruct k as [|k].
+    + cbn [take dump_walk fst snd]. split; [apply prefix_nil|discriminate].
+    + cbn [take]. specialize (IH k).
+      destruct rc as [ps|fam pfx [|e es]|p m|p old new|]; cbn [dump_walk]; try (split; [reflexivity|intros _; reflexivity]).
+      destruct (fam <? 2); [|split; [reflexivity|intros _; reflexivity]].
+      destruct (rib_singles ids fam pfx (e :: es)) as [us1 [|]]; [|split; [reflexivity|intros _; reflexivity]].
+      destruct (dump_walk ids (take k rest)) as [us st]. destruct (dump_walk ids rest) as [us' st'].
+      cbn [fst snd] in *. destruct IH as [Hp Hs]. split.
+      * apply prefix_app. exact Hp.
+      * intros ->. specialize (Hs eq_refl). injection Hs as -> ->. reflexivity.
+Qed.
+
+Lemma msgs_walk_take parent recs : forall r k,
+  (msgs_walk parent r (take k recs)).2 `prefix_of` (msgs_walk parent r recs).2.
+Proof.
+  intros r k. rewrite <- (take_drop k recs) at 2. rewrite msgs_walk_app.
+  destruct (msgs_walk parent r (take k recs)) as [r1 us1]. destruct (msgs_walk parent r1 (drop k recs)) as [r2 us2].
+  cbn [snd]. apply prefix_app_r. reflexivity.
+Qed.
+
+Lemma msgs_walk_pit parent r ps rest : msgs_walk parent r (RPit ps :: rest) = msgs_walk parent r rest.
+Proof. cbn [msgs_walk msg_step]. destruct (msgs_walk parent r rest); reflexivity. Qed.
+
+Lemma process_file_take parent r name recs k :
+  (process_file parent r (FGood name (take k recs))).1.2 `prefix_of` (process_file parent r (FGood name recs)).1.2.
+Proof.
+  destruct recs as [|rc rest]; [rewrite take_nil; reflexivity|].
+  destruct k as [|k]; [cbn [take process_file msgs_walk fst snd]; apply prefix_nil|].
+  cbn [take].
+  destruct rc as [ps|fam pfx es|p m|p old new|].
+  - cbn [process_file]. destruct (reg_peers r parent name ps) as [r1 ids].
+    pose proof (dump_walk_take ids rest k) as H.
+    destruct (dump_walk ids (take k rest)) as [us st] eqn:E1. destruct (dump_walk ids rest) as [us' st'] eqn:E2.
+    cbn [fst snd] in H. destruct H as [Hp Hs].
+    destruct st.
+    + (* the prefix is a complete dump: nothing but RIB records, the message part yields nothing *)
+      rewrite msgs_walk_pit, (msgs_walk_is_rib parent r1 (take k rest) (dump_walk_sok_ribs ids (take k rest) us E1)).
+      cbn [fst snd]. rewrite app_nil_r.
+      destruct st'.
+      * rewrite msgs_walk_pit, (msgs_walk_is_rib parent r1 rest (dump_walk_sok_ribs ids rest us' E2)).
+        cbn [fst snd]. rewrite app_nil_r. exact Hp.
+      * cbn [fst snd]. exact Hp.
+    + specialize (Hs eq_refl). injection Hs as Hu Hst. subst us' st'. reflexivity.
+  - change (process_file parent r (FGood name (RRib fam pfx es :: take k rest))) with
+      (let '(r2, us) := msgs_walk parent r (take (S k) (RRib fam pfx es :: rest)) in (r2, us, SOk)).
+    change (process_file parent r (FGood name (RRib fam pfx es :: rest))) with
+      (let '(r2, us) := msgs_walk parent r (RRib fam pfx es :: rest) in (r2, us, SOk)).
+    pose proof (msgs_walk_take parent (RRib fam pfx es :: rest) r (S k)) as H.
+    destruct (msgs_walk parent r (take (S k) (RRib fam pfx es :: rest))). destruct (msgs_walk parent r (RRib fam pfx es :: rest)). exact H.
+  - change (process_file parent r (FGood name (RMsg p m :: take k rest))) with
+      (let '(r2, us) := msgs_walk parent r (take (S k) (RMsg p m :: rest)) in (r2, us, SOk)).
+    change (process_file parent r (FGood name (RMsg p m :: rest))) with
+      (let '(r2, us) := msgs_walk parent r (RMsg p m :: rest) in (r2, us, SOk)).
+    pose proof (msgs_walk_take parent (RMsg p m :: rest) r (S k)) as H.
+    destruct (msgs_walk parent r (take (S k) (RMsg p m :: rest))). destruct (msgs_walk parent r (RMsg p m :: rest)). exact H.
+  - change (process_file parent r (FGood name (RState p old new :: take k rest))) with
+      (let '(r2, us) := msgs_walk parent r (take (S k) (RState p old new :: rest)) in (r2, us, SOk)).
+    change (process_file parent r (FGood name (RState p old new :: rest))) with
+      (let '(r2, us) := msgs_walk parent r (RState p old new :: rest) in (r2, us, SOk)).
+    pose proof (msgs_walk_take parent (RState p old new :: rest) r (S k)) as H.
+    destruct (msgs_walk parent r (take (S k) (RState p old new :: rest))). destruct (msgs_walk parent r (RState p old new :: rest)). exact H.
+  - change (process_file parent r (FGood name (ROther :: take k rest))) with
+      (let '(r2, us) := msgs_walk parent r (take (S k) (ROther :: rest)) in (r2, us, SOk)).
+    change (process_file parent r (FGood name (ROther :: rest))) with
+      (let '(r2, us) := msgs_walk parent r (ROther :: rest) in (r2, us, SOk)).
+    pose proof (msgs_walk_take parent (ROther :: rest) r (S k)) as H.
+    destruct (msgs_walk parent r (take (S k) (ROther :: rest))). destruct (msgs_walk parent r (ROther :: rest)). exact H.
+Qed.
+
+Theorem hostile_file_local parent r fs1 h fs2 rb :
+  let '(r1, us1) := queue_run parent r fs1 in
+  let '(rh, ush, _) := process_file parent r1 (file_of_hfile h) in
+  let '(r2, us2) := queue_run parent rh fs2 in
+  (* the queue: what was there before, the file's own contribution, then the files behind it
+     exactly as they run on their own from the register the file left *)
+  queue_run parent r (fs1 ++ file_of_hfile h :: fs2) = (r2, us1 ++ ush ++ us2) /\
+  (* its contribution is that of a prefix of its records *)
+  ush `prefix_of` (process_file parent r1 (whole_of_hfile h)).1.2 /\
+  (* an unreadable file contributes nothing and leaves the register alone *)
+  (h = HUnreadable -> ush = [] /\ rh = r1) /\
+  (* and so for the RIB behind the gate *)
+  fold_left rib_apply (queue_run parent r (fs1 ++ file_of_hfile h :: fs2)).2 rb =
+    fold_left rib_apply us2 (fold_left rib_apply ush (fold_left rib_apply us1 rb)).
+Proof.
+  rewrite queue_run_app. destruct (queue_run parent r fs1) as [r1 us1].
+  rewrite file_then_rest.
+  pose proof (fun name recs k => process_file_take parent r1 name recs k) as Hpre.
+  destruct (process_file parent r1 (file_of_hfile h)) as [[rh ush] st] eqn:Eh.
+  destruct (queue_run parent rh fs2) as [r2 us2]. cbn [fst snd].
+  split; [reflexivity|]. split; [|split].
+  - destruct h as [|name recs k]; cbn [file_of_hfile whole_of_hfile] in *.
+    + rewrite Eh. reflexivity.
+    + specialize (Hpre name recs k). rewrite Eh in Hpre. exact Hpre.
+  - intros ->. cbn [file_of_hfile process_file] in Eh. injection Eh as <- <- _. split; reflexivity.
+  - rewrite !fold_left_app. reflexivity.
+Qed.
+
+(* a concrete hostile queue: a dump cut inside its second RIB record between two good update files *)
+Definition hq_before : mfile := FGood 1 [RMsg (9, 65009) (BUpdate (URoutes 0 [60] 2 0 []))].
+Definition hq_hostile : hfile := HStops 2 [RPit [(1, 65001); (2, 65002)]; RRib 0 21 [(0, 3); (1, 4)]; RRib 0 22 [(0, 7)]] 2.
+Definition hq_after : mfile := FGood 3 [RMsg (7, 65007) (BUpdate (URoutes 0 [1] 9 0 []))].
+Lemma hostile_example :
+  (queue_run unit_start.1 unit_start.2 [hq_before; file_of_hfile hq_hostile; hq_after]).2 =
+    [UBulk [MkPay (0, 60, 2) true 2];
+     UBulk [MkPay (0, 21, 3) true 3]; UBulk [MkPay (0, 21, 4) true 4];
+     UBulk [MkPay (0, 1, 5) true 9]].
+Proof. vm_compute. reflexivity. Qed.
